@@ -11,7 +11,8 @@ package main
 //   pem : (name data dec desc cands layout alone)
 //       dec  = ((len-of-rest () | (type bytes len-of-new-rest))...)  encoding/pem.Decode at every "-----BEGIN " occurrence
 //       desc = ((type bytes obs)...)  parsePEMBlock
-//       layout = () | (items)   items: (0 text type bytes) block | (1 text) other text | (2 text) PGP armor | (3 text) block with an undecodable body
+//       layout = () | (items)   items: (0 text type bytes hdrlines crlf wrap fin) block, written as Model/Containers.v armor writes it
+//                               | (1 text) other text | (2 text) PGP armor | (3 text) block with an undecodable body
 //       alone = (obs...) file.PEMFile on the text of each (0 ..) block alone
 //   jks : (name data secret certs encs cands layout alone)
 //       secret = ((offset (0 consumed seal content) | (2))...)  java.UnmarshalReader + asn1.Unmarshal of the parameters
@@ -471,6 +472,56 @@ func (b pemBlockT) text() []byte {
 	return pem.EncodeToMemory(&pem.Block{Type: b.typ, Headers: b.hdr, Bytes: b.bytes})
 }
 
+// hdrLines: the header lines in the order encoding/pem.Encode writes them (Proc-Type first, then sorted)
+func (b pemBlockT) hdrLines() []string {
+	var ls, keys []string
+	for k := range b.hdr {
+		if k != "Proc-Type" {
+			keys = append(keys, k)
+		}
+	}
+	sort.Strings(keys)
+	if v, ok := b.hdr["Proc-Type"]; ok {
+		ls = append(ls, "Proc-Type: "+v)
+	}
+	for _, k := range keys {
+		ls = append(ls, k+": "+b.hdr[k])
+	}
+	return ls
+}
+
+// c06Armor writes a block the way other writers do: base64 lines of any width (0: one line), LF or
+// CRLF, the END line terminated or not.  wrap 64, LF, fin is what pem.EncodeToMemory produces.
+func c06Armor(b pemBlockT, wrap int, crlf, fin bool) []byte {
+	le := "\n"
+	if crlf {
+		le = "\r\n"
+	}
+	var w bytes.Buffer
+	w.WriteString("-----BEGIN " + b.typ + "-----" + le)
+	if hl := b.hdrLines(); len(hl) > 0 {
+		for _, h := range hl {
+			w.WriteString(h + le)
+		}
+		w.WriteString(le)
+	}
+	if len(b.bytes) > 0 {
+		e := base64.StdEncoding.EncodeToString(b.bytes)
+		if wrap > 0 {
+			for len(e) > wrap {
+				w.WriteString(e[:wrap] + le)
+				e = e[wrap:]
+			}
+		}
+		w.WriteString(e + le)
+	}
+	w.WriteString("-----END " + b.typ + "-----")
+	if fin {
+		w.WriteString(le)
+	}
+	return w.Bytes()
+}
+
 func c06PEMPool(r *Rng) []pemBlockT {
 	var pool []pemBlockT
 	dir := filepath.Join(repoDir(), "internal/file/testdata/x509/pem")
@@ -530,6 +581,9 @@ type pemItem struct {
 	kind int // 0 block, 1 text, 2 PGP armor, 3 undecodable block
 	text []byte
 	blk  pemBlockT
+	wrap int  // kind 0: how the block is written (c06Armor)
+	crlf bool
+	fin  bool
 }
 
 func c06ToCRLF(b []byte) []byte { return bytes.ReplaceAll(b, []byte("\n"), []byte("\r\n")) }
@@ -568,7 +622,11 @@ func c06PEMCase(c *Ctx, tag string, data []byte, its []pemItem) {
 		for _, it := range its {
 			switch it.kind {
 			case 0:
-				items = append(items, SL{I(0), SB(it.text), S(it.blk.typ), SB(it.blk.bytes)})
+				hl := SL{}
+				for _, h := range it.blk.hdrLines() {
+					hl = append(hl, S(h))
+				}
+				items = append(items, SL{I(0), SB(it.text), S(it.blk.typ), SB(it.blk.bytes), hl, Bool(it.crlf), I(it.wrap), Bool(it.fin)})
 				t := it.blk.text()
 				alone = append(alone, c06_infoObs(func() (file.Info, error) { return file.PEMFile(file.Info{}, t) }))
 			default:
@@ -590,11 +648,22 @@ func c06PEMRender(its []pemItem) []byte {
 }
 
 func c06PEMBlockItem(b pemBlockT, crlf bool) pemItem {
-	t := b.text()
-	if crlf {
-		t = c06ToCRLF(t)
+	return c06PEMBlockItemW(b, 64, crlf, true)
+}
+
+func c06PEMBlockItemW(b pemBlockT, wrap int, crlf, fin bool) pemItem {
+	t := c06Armor(b, wrap, crlf, fin)
+	if wrap == 64 && fin {
+		// the harness's writer against the standard library's
+		want := b.text()
+		if crlf {
+			want = c06ToCRLF(want)
+		}
+		if !bytes.Equal(t, want) {
+			panic("c06Armor differs from pem.EncodeToMemory for type " + b.typ)
+		}
 	}
-	return pemItem{kind: 0, text: t, blk: b}
+	return pemItem{kind: 0, text: t, blk: b, wrap: wrap, crlf: crlf, fin: fin}
 }
 
 func c06JunkItem(r *Rng, crlf bool, rich bool) pemItem {
@@ -650,6 +719,9 @@ func genC06PEM(c *Ctx) {
 			cut := len(c06PEMRender(its)) - len(d)
 			its = append([]pemItem{}, its...)
 			its[n].text = its[n].text[:len(its[n].text)-cut]
+			if its[n].kind == 0 {
+				its[n].fin = false // the END line of the last block ends the file
+			}
 		case 2:
 			its = append(append([]pemItem{}, its...), pemItem{kind: 1, text: []byte("\n")})
 			d = c06PEMRender(its)
@@ -710,6 +782,32 @@ func genC06PEM(c *Ctx) {
 			}
 			emit(tag, its, trail)
 		}
+	}
+	// blocks as other writers produce them: lines of any width (0: one line), LF and CRLF mixed inside one
+	// file, headers, the END line of the last block ending the file
+	widths := []int{0, 1, 3, 4, 48, 63, 64, 65, 76, 1000}
+	nv := 40
+	if c.Thorough() {
+		nv = 600
+	}
+	for k := 0; k < nv; k++ {
+		n := 1 + c.R.Intn(4)
+		var its []pemItem
+		for i := 0; i < n; i++ {
+			crlf := c.R.Bool()
+			if c.R.Intn(3) == 0 {
+				its = append(its, c06JunkItem(c.R, crlf, false))
+			}
+			fin := true
+			if i == n-1 && c.R.Intn(3) == 0 {
+				fin = false
+			}
+			its = append(its, c06PEMBlockItemW(pool[c.R.Intn(len(pool))], widths[c.R.Intn(len(widths))], crlf, fin))
+		}
+		if its[len(its)-1].fin && c.R.Intn(3) == 0 {
+			its = append(its, c06JunkItem(c.R, false, false))
+		}
+		c06PEMCase(c, "written", c06PEMRender(its), its)
 	}
 	// every pool block once alone and once between two others
 	for i, b := range pool {
